@@ -163,6 +163,22 @@ def hand_specs():
         op("multi", in_sel=["request", "re"], in_headers=[{"msg": m2, "part": "requestHeader"}, {"msg": m2, "part": "req"}], out_sel=["status"], **{"in": m2, "out": m3}),
     ]
     specs.append(s)
+    # several inline schemas: a qualified one first, then schemas that declare no form default (XSD default:
+    # unqualified local elements / attributes), then an explicitly unqualified one
+    s = copy.deepcopy(base)
+    s["schemas"] = [{"ns": "urn:types", "form": "qualified", "attr_form": "qualified", "n_form": "unqualified"},
+                    {"ns": "urn:types/b", "form": None, "attr_form": None},
+                    {"ns": "urn:third", "form": "unqualified", "attr_form": None, "n_form": "qualified"}]
+    s["ref_schema"] = {"Eqa": 0, "EqaR": 1, "Eqb": 1, "EqbR": 2, "EH9": 0, "EF9": 1, "TRec9": 1}
+    hm9 = {"name": "Hdr9", "parts": [{"name": "h", "kind": "element", "ref": "EH9"}]}
+    fm9 = {"name": "F9", "parts": [{"name": "fault", "kind": "element", "ref": "EF9"}]}
+    s["ops"] = [
+        op("qa", in_headers=[{"msg": hm9, "part": "h"}], faults=[{"name": "F9", "msg": fm9}]),
+        op("qb", ostyle="rpc", body_ns="urn:t",
+           **{"in": {"name": "qb", "parts": [{"name": "rec", "kind": "type", "ref": "TRec9"}, {"name": "e", "kind": "element", "ref": "Eqb"}]},
+              "out": {"name": "qbResponse", "parts": [{"name": "e", "kind": "element", "ref": "EqbR"}]}}),
+    ]
+    specs.append(s)
     return specs
 
 
@@ -354,7 +370,7 @@ def families_of(spec):
                         out[(i, direction)] = {"error": "no envelope"}
                         continue
                     pns = [None, ENV]
-                    for x in (spec["xns"], spec["tns"], op.get("body_ns")):
+                    for x in [sc["ns"] for sc in G.schemas_of(spec)] + [spec["tns"], op.get("body_ns")]:
                         if x and x not in pns:
                             pns.append(x)
                     try:
@@ -883,6 +899,70 @@ def impl_transport(a):
 
 
 # ======================================================================
+# schema.forms — per-schema state of the (Definitions/Schema) parser
+# ======================================================================
+FORM_VALUES = [None, "qualified", "unqualified", "", "Qualified"]
+
+
+def gen_schema_forms(rng, tier):
+    # every ordered pair of (elementFormDefault, attributeFormDefault) declarations x every own form
+    for f1 in FORM_VALUES:
+        for f2 in FORM_VALUES:
+            a1 = [[k, v] for k, v in (("elementFormDefault", f1), ("attributeFormDefault", f2)) if v is not None]
+            for g1 in FORM_VALUES[:4]:
+                a2 = [[k, v] for k, v in (("targetNamespace", "urn:b"), ("elementFormDefault", g1)) if v is not None]
+                yield {"schemas": [{"attrs": a1, "elements": [None, "qualified", "unqualified"], "attributes": [None, "unqualified"]},
+                                   {"attrs": a2, "elements": [None, "qualified"], "attributes": [None, "qualified"]},
+                                   {"attrs": [], "elements": [None], "attributes": [None]}]}
+    for _ in range(n_cases(tier, 150, 5000)):
+        docs = []
+        for _ in range(rng.randint(1, 4)):
+            attrs = {}
+            for k in ("elementFormDefault", "attributeFormDefault", "defaultAttributes", "targetNamespace"):
+                if rng.random() < 0.5:
+                    attrs[k] = rng.choice(FORM_VALUES[1:] if k.endswith("FormDefault") else ["tns:grp", "urn:x", ""])
+            docs.append({"attrs": [[k, v] for k, v in attrs.items()],
+                         "elements": [rng.choice(FORM_VALUES[:3]) for _ in range(rng.randint(0, 3))],
+                         "attributes": [rng.choice(FORM_VALUES[:3]) for _ in range(rng.randint(0, 2))]})
+        yield {"schemas": docs}
+
+
+def impl_schema_forms(a):
+    """one parser instance (DefinitionsParser, as for a WSDL document) meets the schemas in order"""
+    from xsdata.codegen.parsers.definitions import DefinitionsParser
+    from xsdata.models import xsd
+    from xsdata.models.enums import FormType
+
+    parser = DefinitionsParser(location="file:///svc.wsdl")
+
+    def decl(cls, hook, own):
+        obj = cls(name="x", form=FormType(own) if own is not None else None)
+        try:
+            hook(obj)
+        except ValueError:
+            return "ValueError"
+        return {"form": obj.form.value if obj.form is not None else None}
+
+    out = []
+    for doc in a["schemas"]:
+        parser.start_schema({k: v for k, v in doc["attrs"]})
+        out.append({
+            "element_form": parser.element_form,
+            "attribute_form": parser.attribute_form,
+            "default_attributes": parser.default_attributes,
+            "elements": [decl(xsd.Element, parser.end_element, f) for f in doc["elements"]],
+            "attributes": [decl(xsd.Attribute, parser.end_attribute, f) for f in doc["attributes"]],
+        })
+    return ok(out)
+
+
+def classify_schema_forms(a, o):
+    docs = a["schemas"]
+    decl = ["Y" if any(k == "elementFormDefault" for k, _ in d["attrs"]) else "n" for d in docs]
+    return "declares:" + "".join(decl)
+
+
+# ======================================================================
 # oracles: the property on the implementation alone
 # ======================================================================
 def user_simple(ref):
@@ -969,7 +1049,7 @@ def prescribed_body(spec, op, direction):
         name = op["name"] if direction == "in" else op["name"] + "Response"
         return [(name, op.get("body_ns"))]
     parts = selected(op, direction)
-    return [(p["ref"], spec["xns"]) if p["kind"] == "element" else (p["name"], "*") for p in parts]
+    return [(p["ref"], G.ref_ns(spec, p["ref"])) if p["kind"] == "element" else (p["name"], "*") for p in parts]
 
 
 def prescribed_headers(spec, op, direction):
@@ -978,7 +1058,7 @@ def prescribed_headers(spec, op, direction):
         # soap:header part= names exactly one part of the message (equality, WSDL 1.1 3.7)
         for p in h["msg"]["parts"]:
             if p["name"] == h["part"]:
-                out.append((p["ref"], spec["xns"]))
+                out.append((p["ref"], G.ref_ns(spec, p["ref"])))
     return out
 
 
@@ -1057,7 +1137,7 @@ def check_mapper(a):
                     return f"{base + sfx}: no class for the rpc message {mq}"
                 gotp = [(x.name, x.types[0].qname) for x in mc.attrs]
                 wantp = [((p["ref"] if p["kind"] == "element" else p["name"]),
-                          (f"{{{G.XSD_NS}}}{p['ref'][4:]}" if p["ref"].startswith("xsd:") else f"{{{spec['xns']}}}{p['ref']}")) for p in m["parts"]]
+                          (f"{{{G.XSD_NS}}}{p['ref'][4:]}" if p["ref"].startswith("xsd:") else f"{{{G.ref_ns(spec, p['ref'])}}}{p['ref']}")) for p in m["parts"]]
                 if gotp != wantp:
                     return f"{base + sfx}: rpc part accessors {gotp} != {wantp}"
             if direction == "out":
@@ -1070,7 +1150,7 @@ def check_mapper(a):
                 fnames = [(x.name, x.namespace, x.restrictions.min_occurs) for x in fault.attrs]
                 if fnames != [("faultcode", "", None), ("faultstring", "", None), ("faultactor", "", 0), ("detail", "", 0)]:
                     return f"{base + sfx}: Fault children {fnames}"
-                want_detail = [(f["msg"]["parts"][0]["ref"], spec["xns"], 0) for f in op.get("faults", [])]
+                want_detail = [(f["msg"]["parts"][0]["ref"], G.ref_ns(spec, f["msg"]["parts"][0]["ref"]), 0) for f in op.get("faults", [])]
                 got_detail = [(x.name, x.namespace, x.restrictions.min_occurs) for i in fault.inner for x in i.attrs]
                 if got_detail != want_detail:
                     return f"{base + sfx}: fault detail entries {got_detail} != {want_detail}"
@@ -1162,7 +1242,41 @@ def leaf_texts(el):
     for x in el.iter():
         if len(x) == 0 and x.text is not None:
             out.append(x.text)
+        out.extend(x.attrib.values())
     return out
+
+
+def payload_forms(spec, op, root):
+    """the local children / attributes of every element or typed part in the posted payload carry the
+    namespace their own schema prescribes: qualified iff that schema declares the form default
+    `qualified`, whatever the other schemas of the definition declare"""
+    from lxml import etree
+
+    refs = {r: r for r in G.all_refs(spec) if r.startswith("E")}
+    typed = {}
+    for p in op["in"]["parts"]:  # part names are only unique within a message
+        if p["kind"] == "type" and (p.get("ref") or "").startswith("T"):
+            typed[p["name"]] = p["ref"]
+    for el in root.iter():
+        q = etree.QName(el)
+        ref = None
+        if el is root or (el.getparent() is root and q.namespace == ENV):
+            continue  # soap:Envelope / soap:Header / soap:Body themselves
+        if q.localname in refs and q.namespace == G.ref_ns(spec, q.localname):
+            ref = q.localname
+        elif q.localname in typed and q.namespace in (None, ENV):
+            ref = typed[q.localname]
+        if ref is None:
+            continue
+        for c in el:
+            want = G.child_ns(spec, ref, etree.QName(c).localname)
+            if etree.QName(c).namespace != want:
+                return f"[forms] child {c.tag} of {el.tag}: schema {G.ref_ns(spec, ref)} declares elementFormDefault={G.schemas_of(spec)[G.schema_index(spec, ref)].get('form')!r}, so its local elements are in namespace {want!r}"
+        wanta = G.attr_ns(spec, ref)
+        for k in el.attrib:
+            if etree.QName(k).namespace != wanta:
+                return f"[forms] attribute {k} of {el.tag}: attributeFormDefault of its schema gives namespace {wanta!r}"
+    return None
 
 
 def qn(ns, name):
@@ -1190,8 +1304,16 @@ def canned_response(spec, op, fault=None, fault_with_header=False, wrapper=None)
         leaves.append(str(n[0]))
         return str(n[0])
 
+    def child(ref, name, content):
+        # a local element is namespace-qualified only if ITS schema declares elementFormDefault="qualified"
+        cns = G.child_ns(spec, ref, name)
+        return f'<c:{name} xmlns:c="{cns}">{content}</c:{name}>' if cns else f'<{name} xmlns="">{content}</{name}>'
+
     def elem(ref):
-        return f'<x:{ref} xmlns:x="{spec["xns"]}"><x:a>{val()}</x:a><x:n>{num()}</x:n></x:{ref}>'
+        ans = G.attr_ns(spec, ref)
+        k = val()
+        attr = f' xmlns:k="{ans}" k:k="{k}"' if ans else f' k="{k}"'
+        return f'<x:{ref} xmlns:x="{G.ref_ns(spec, ref)}"{attr}>{child(ref, "a", val())}{child(ref, "n", num())}</x:{ref}>'
 
     def typed(name, ref, ns_decl):
         if ref == "xsd:string":
@@ -1199,7 +1321,7 @@ def canned_response(spec, op, fault=None, fault_with_header=False, wrapper=None)
         elif ref == "xsd:int":
             inner = num()
         elif ref.startswith("T"):
-            inner = f'<x:a xmlns:x="{spec["xns"]}">{val()}</x:a>'
+            inner = child(ref, "a", val())
         elif ref.startswith("S"):
             leaves.append("green")
             inner = "green"
@@ -1346,11 +1468,14 @@ def check_e2e(a):
                 return f"body entries {got} != {want_b}"
             if st == "rpc":
                 acc = [c.tag for c in body[0]]
-                want_acc = [qn(spec["xns"], p["ref"]) if p["kind"] == "element" else p["name"] for p in op["in"]["parts"]]
+                want_acc = [qn(G.ref_ns(spec, p["ref"]), p["ref"]) if p["kind"] == "element" else p["name"] for p in op["in"]["parts"]]
                 if acc != want_acc:
                     if any("##lazy" in x for x in acc):
                         return f"[lazy] rpc part accessors {acc} != {want_acc}"
                     return f"rpc part accessors {acc} != {want_acc}"
+            msgf = payload_forms(spec, op, root)
+            if msgf:
+                return msgf
             if sorted(leaf_texts(root)) != sorted(cnt.leaves):
                 return f"payload values {sorted(leaf_texts(root))} != request values {sorted(cnt.leaves)}"
             # ---- response
@@ -1545,6 +1670,8 @@ CORRS = [
          describe="Client.prepare_headers"),
     Corr("client.send", gen_client_send, impl_client_send,
          classify=lambda a, o: a["request"]["kind"] + ":" + (o.get("err") or "ok"), describe="Client.send call sequence"),
+    Corr("schema.forms", gen_schema_forms, impl_schema_forms, classify=classify_schema_forms,
+         describe="SchemaParser.start_schema / end_element / end_attribute on ONE parser instance over a sequence of inline schemas"),
     Corr("transport.handle", gen_transport, impl_transport, describe="DefaultTransport.post/handle_response"),
 ]
 
